@@ -8,6 +8,7 @@ ID = 'C06'
 ASSUMPTIONS = [
     'DM rotation is excluded from the exactness claim (an inverse warp is only an approximate adjoint of spline interpolation)',
     'czt backprop is documented as not implemented; only the mdft method is claimed for the fixed-sampling companions',
+    'modal sums with REAL weights: only the real part of the companion output is the gradient (the imaginary part returned for complex modes / complex upstream gradients is not judged)',
     'non-linear nodes: finite operating-point alphabets; derivative oracle = Richardson-extrapolated central differences with measured residual',
 ]
 
